@@ -1,0 +1,14 @@
+//go:build verif
+
+// Contracts for the gvc verifier (/verif). This file contains comments only:
+// with the "verif" build tag off it is not compiled, with it on it adds no code.
+
+package leafref
+
+// Leafref paths use RFC 6020 identifiers (ASCII letters, digits, '_', '-', '.'), not XML names.
+//@ func (*leafrefLex).IsNameStartChar
+//@   nopanic
+//@   ensures result == rfc_idstart(c)
+//@ func (*leafrefLex).IsNameChar
+//@   nopanic
+//@   ensures result == rfc_idchar(c)
